@@ -23,11 +23,19 @@ type Shape struct {
 	// children (the same type used by several fields) instead of one type
 	// per group.  Signature prefix "~".
 	Share bool
+	// Decl selects how leaf fields are declared: "" one name per declaration,
+	// "u" grouped with an unexported name first ("u0, F0 int32"), "g" grouped
+	// with the unexported name last ("F0, u0 int32").  Signature prefix "^u" /
+	// "^g".  The unexported names are not columns.
+	Decl string
 }
 
 // Sig renders the signature: leaves r/o/p, groups R(...)/O(...)/P(...).
 func (s *Shape) Sig() string {
 	var sb strings.Builder
+	if s.Decl != "" {
+		sb.WriteString("^" + s.Decl)
+	}
 	if s.Share {
 		sb.WriteByte('~')
 	}
@@ -55,6 +63,13 @@ func (f *Field) sig(sb *strings.Builder) {
 
 // ParseSig parses a signature back into a shape.
 func ParseSig(sig string) (*Shape, error) {
+	if strings.HasPrefix(sig, "^u") || strings.HasPrefix(sig, "^g") {
+		s, err := ParseSig(sig[2:])
+		if err == nil {
+			s.Decl = sig[1:2]
+		}
+		return s, err
+	}
 	if strings.HasPrefix(sig, "~") {
 		s, err := ParseSig(sig[1:])
 		if err == nil {
@@ -154,7 +169,14 @@ func (s *Shape) Source(pkg string) string {
 				if t == "" {
 					t = "int32"
 				}
-				fmt.Fprintf(&sb, "\tF%d %s%s\n", i, prefix, t)
+				switch s.Decl {
+				case "u":
+					fmt.Fprintf(&sb, "\tu%d, F%d %s%s\n", i, i, prefix, t)
+				case "g":
+					fmt.Fprintf(&sb, "\tF%d, u%d %s%s\n", i, i, prefix, t)
+				default:
+					fmt.Fprintf(&sb, "\tF%d %s%s\n", i, prefix, t)
+				}
 			} else {
 				if s.Share {
 					if tn, ok := shared[childSig(f)]; ok {
